@@ -12,6 +12,7 @@ API intended for reuse (C07 symmetry, C13 conditional g(r)):
                                (partial g_ab: weight 1[t_i=a]·1[t_j=b]; conditional g(r): weight A_i·A_j);
 * `loopHist tr bin w k`      — the same over unordered pairs i<j, as the code's loop visits them;
 * `Spec.shell`, `Spec.g`, `Spec.gTotal`, `Spec.r`, `Spec.V`, `Spec.Lmin` — the definition in the property statement;
+  `Spec.gOf`, `Spec.gTotalOf`, `Spec.pairCount` take the bin predicate `bin f i j k` as an argument (any pair distance);
 * `Impl.*`                   — the algorithm of gr.py, parametrised by the REGENERATED tables (`Method`, `Defs`).
 -/
 namespace Pms.Gr
@@ -109,24 +110,24 @@ def shell (tr : Traj α) (k : Nat) : α :=
 def Na (tr : Traj α) (a : Nat) : Nat := countType (tr.frame 0).typ tr.N a
 
 /-- frame-summed number of ordered pairs (i ≠ j) with t_i = a, t_j = b in bin k -/
-def pairCount (tr : Traj α) (d2 : Nat → Nat → Nat → α) (a b k : Nat) : α :=
-  pairHist tr (binOf tr d2) (fun f i j => ind (decide ((tr.frame f).typ i = a ∧ (tr.frame f).typ j = b))) k
+def pairCount (tr : Traj α) (bin : Nat → Nat → Nat → Nat → Bool) (a b k : Nat) : α :=
+  pairHist tr bin (fun f i j => ind (decide ((tr.frame f).typ i = a ∧ (tr.frame f).typ j = b))) k
 
 /-- frame-summed number of ordered pairs (i ≠ j) in bin k -/
-def pairCountAll (tr : Traj α) (d2 : Nat → Nat → Nat → α) (k : Nat) : α :=
-  pairHist tr (binOf tr d2) (fun _ _ _ => ((1 : Nat) : α)) k
+def pairCountAll (tr : Traj α) (bin : Nat → Nat → Nat → Nat → Bool) (k : Nat) : α :=
+  pairHist tr bin (fun _ _ _ => ((1 : Nat) : α)) k
 
 /-- g_ab(r_k) = V/(N_a N_b) · (frame average of the ordered a-b pair count in bin k) / shell_k -/
-def gOf (tr : Traj α) (d2 : Nat → Nat → Nat → α) (a b k : Nat) : α :=
-  V tr / (((Na tr a : Nat) : α) * ((Na tr b : Nat) : α)) * (pairCount tr d2 a b k / (tr.T : α)) / shell tr k
+def gOf (tr : Traj α) (bin : Nat → Nat → Nat → Nat → Bool) (a b k : Nat) : α :=
+  V tr / (((Na tr a : Nat) : α) * ((Na tr b : Nat) : α)) * (pairCount tr bin a b k / (tr.T : α)) / shell tr k
 
 /-- total g(r_k) = V/N² · (frame average of the ordered pair count in bin k) / shell_k -/
-def gTotalOf (tr : Traj α) (d2 : Nat → Nat → Nat → α) (k : Nat) : α :=
-  V tr / ((tr.N : α) * (tr.N : α)) * (pairCountAll tr d2 k / (tr.T : α)) / shell tr k
+def gTotalOf (tr : Traj α) (bin : Nat → Nat → Nat → Nat → Bool) (k : Nat) : α :=
+  V tr / ((tr.N : α) * (tr.N : α)) * (pairCountAll tr bin k / (tr.T : α)) / shell tr k
 
 /-- the definitions with the minimum-image distance of the trajectory -/
-def g (rint : α → Int) (tr : Traj α) (a b k : Nat) : α := gOf tr (dist2 rint tr) a b k
-def gTotal (rint : α → Int) (tr : Traj α) (k : Nat) : α := gTotalOf tr (dist2 rint tr) k
+def g (rint : α → Int) (tr : Traj α) (a b k : Nat) : α := gOf tr (binOf tr (dist2 rint tr)) a b k
+def gTotal (rint : α → Int) (tr : Traj α) (k : Nat) : α := gTotalOf tr (binOf tr (dist2 rint tr)) k
 
 /-- what column `col` of the regenerated tables is supposed to hold (a = 0 marks the total) -/
 def column (rint : α → Int) (tr : Traj α) (col : Col) (k : Nat) : α :=
@@ -138,8 +139,8 @@ namespace Impl
 
 /-- raw accumulated histogram of one column: Σ_frames Σ_{i<j} [sel(t_j + t_i, |t_j − t_i|)]·[bin k]
 (`TIJ = c_[type[i+1:], type[i]]`, `countsum = TIJ.sum(1)`, `countsub = |TIJ[:,0] − TIJ[:,1]|`) -/
-def rawCountOf (tr : Traj α) (d2 : Nat → Nat → Nat → α) (sel : Sel) (k : Nat) : α :=
-  loopHist tr (binOf tr d2)
+def rawCountOf (tr : Traj α) (bin : Nat → Nat → Nat → Nat → Bool) (sel : Sel) (k : Nat) : α :=
+  loopHist tr bin
     (fun f i j => ind (sel.eval ((tr.frame f).typ j) ((tr.frame f).typ i))) k
 
 /-- layer 0: primitive inputs only -/
@@ -163,12 +164,12 @@ def env (D : Defs) (M : Method) (tr : Traj α) (k : Nat) (cnt : α) : Env α :=
     rhotype := fun i => D.rhotype.eval { e1 with tcElem := e1.typecount i } }
   { e2 with nideal := M.nideal.eval e2 }
 
-def valueOf (D : Defs) (M : Method) (tr : Traj α) (d2 : Nat → Nat → Nat → α) (col : Col) (k : Nat) : α :=
-  col.norm.eval (env D M tr k (rawCountOf tr d2 col.sel k))
+def valueOf (D : Defs) (M : Method) (tr : Traj α) (bin : Nat → Nat → Nat → Nat → Bool) (col : Col) (k : Nat) : α :=
+  col.norm.eval (env D M tr k (rawCountOf tr bin col.sel k))
 
 /-- the value the code returns in column `col`, row k -/
 def value (D : Defs) (M : Method) (rint : α → Int) (tr : Traj α) (col : Col) (k : Nat) : α :=
-  valueOf D M tr (dist2 rint tr) col k
+  valueOf D M tr (binOf tr (dist2 rint tr)) col k
 
 /-- the value the code returns in column `r`, row k -/
 def r (D : Defs) (M : Method) (tr : Traj α) (k : Nat) : α := M.r.eval (env D M tr k 0)
